@@ -137,14 +137,113 @@ theorem naryScan_id {isAnd : Bool} {es : List (Exp α)} (h : ∀ e ∈ es, isNum
   | cons e es ih =>
     rw [naryScan_cons_other _ _ _ (h e (by simp)), ih (fun x hx => h x (by simp [hx]))]; rfl
 
+/-! ### the second loop after rooc 9f62afd (`naryStep`) -/
+
+/-- identity literal of the connective (`truthy` for and, `falsy` for or): always dropped. -/
+def isIdentityLit (isAnd : Bool) : Exp α → Bool
+  | .num v => numTruthy v == isAnd
+  | _ => false
+
+theorem absorbing_or_identity (isAnd : Bool) (v : α) :
+    absorbing isAnd v = !(isIdentityLit isAnd (.num v)) := by
+  cases isAnd <;> cases h : numTruthy v <;> simp [absorbing, isIdentityLit, h]
+
+theorem naryKeep_eq_filter (isAnd : Bool) (es : List (Exp α)) :
+    naryKeep isAnd es = es.filter (fun x => !(isIdentityLit isAnd x)) := by
+  induction es with
+  | nil => rfl
+  | cons e es ih =>
+    cases e <;> simp only [naryKeep, isIdentityLit, List.filter_cons, ih] <;> try rfl
+    split <;> simp_all
+
+theorem mayBeUndefined_num (v : α) : mayBeUndefined (.num v : Exp α) = false := by
+  simp [mayBeUndefined]
+
+theorem mayBeUndefinedAny_iff (es : List (Exp α)) :
+    mayBeUndefinedAny es = true ↔ ∃ e ∈ es, mayBeUndefined e = true := by
+  induction es with
+  | nil => simp [mayBeUndefinedAny]
+  | cons e es ih => simp [mayBeUndefinedAny, ih]
+
+/-- dropping literals does not change `any_undefined`. -/
+theorem mayBeUndefinedAny_filter {q : Exp α → Bool} {es : List (Exp α)}
+    (h : ∀ x ∈ es, q x = false → isNum x = true) :
+    mayBeUndefinedAny (es.filter q) = mayBeUndefinedAny es := by
+  rw [Bool.eq_iff_iff, mayBeUndefinedAny_iff, mayBeUndefinedAny_iff]
+  constructor
+  · rintro ⟨e, he, hu⟩; exact ⟨e, (List.mem_filter.1 he).1, hu⟩
+  · rintro ⟨e, he, hu⟩
+    refine ⟨e, List.mem_filter.2 ⟨he, ?_⟩, hu⟩
+    by_contra hq
+    have := h e he (by simpa using hq)
+    rcases isNum_cases e with h' | ⟨v, rfl⟩
+    · rw [h'] at this; cases this
+    · rw [mayBeUndefined_num] at hu; cases hu
+
+/-- a successful second loop is a filter that drops only non-absorbing literals and keeps every
+non-literal. -/
+theorem naryStep_some {isAnd : Bool} {es res : List (Exp α)} (h : naryStep isAnd es = some res) :
+    ∃ q : Exp α → Bool, res = es.filter q ∧
+      (∀ x ∈ es, q x = false → ∃ v, x = .num v ∧ absorbing isAnd v = false) ∧
+      (∀ x, isNum x = false → q x = true) := by
+  unfold naryStep at h
+  split at h
+  · simp only [Option.some.injEq] at h
+    refine ⟨fun x => !(isIdentityLit isAnd x), by rw [← h, naryKeep_eq_filter], ?_, ?_⟩
+    · intro x _ hq
+      rcases isNum_cases x with h' | ⟨v, rfl⟩
+      · cases x <;> simp_all [isIdentityLit, isNum]
+      · exact ⟨v, rfl, by rw [absorbing_or_identity]; simpa using hq⟩
+    · intro x hx; cases x <;> simp_all [isIdentityLit, isNum]
+  · refine ⟨fun x => !(isNum x), naryScan_some h, ?_, ?_⟩
+    · intro x hx hq
+      rcases isNum_cases x with h' | ⟨v, rfl⟩
+      · simp [h'] at hq
+      · refine ⟨v, rfl, ?_⟩
+        by_contra ha
+        have : naryScan isAnd es = none := naryScan_none.2 ⟨v, hx, by simpa using ha⟩
+        rw [this] at h; cases h
+    · intro x hx; simp [hx]
+
+theorem naryStep_none {isAnd : Bool} {es : List (Exp α)} (h : naryStep isAnd es = none) :
+    mayBeUndefinedAny es = false ∧ ∃ v, .num v ∈ es ∧ absorbing isAnd v = true := by
+  unfold naryStep at h
+  split at h
+  · cases h
+  · exact ⟨by simpa using ‹¬ mayBeUndefinedAny es = true›, naryScan_none.1 h⟩
+
+/-- the second loop is idempotent. -/
+theorem naryStep_idem {isAnd : Bool} {es res : List (Exp α)} (h : naryStep isAnd es = some res) :
+    naryStep isAnd res = some res := by
+  unfold naryStep at h ⊢
+  split at h
+  · rename_i hu
+    simp only [Option.some.injEq] at h
+    have hres : res = es.filter (fun x => !(isIdentityLit isAnd x)) := by
+      rw [← h, naryKeep_eq_filter]
+    have : mayBeUndefinedAny res = true := by
+      rw [hres, mayBeUndefinedAny_filter, hu]
+      intro x _ hq; cases x <;> simp_all [isIdentityLit, isNum]
+    rw [if_pos this, naryKeep_eq_filter, hres, List.filter_filter]
+    simp
+  · rename_i hu
+    have hres := naryScan_some h
+    have : ¬ mayBeUndefinedAny res = true := by
+      rw [hres, mayBeUndefinedAny_filter]
+      · exact hu
+      · intro x _ hq; simpa using hq
+    rw [if_neg this]
+    apply naryScan_id
+    intro e he; rw [hres, List.mem_filter] at he; simpa using he.2
+
 /-- shape of the result of `naryCore`. -/
 theorem naryCore_cases (isAnd : Bool) (cs : List (Exp α)) :
-    (naryScan isAnd (naryFlatten isAnd cs) = none ∧
+    (naryStep isAnd (naryFlatten isAnd cs) = none ∧
         naryCore isAnd cs = .num (if isAnd then zero else one)) ∨
-    (naryScan isAnd (naryFlatten isAnd cs) = some [] ∧
+    (naryStep isAnd (naryFlatten isAnd cs) = some [] ∧
         naryCore isAnd cs = .num (logicNumber isAnd)) ∨
-    (∃ e, naryScan isAnd (naryFlatten isAnd cs) = some [e] ∧ naryCore isAnd cs = e) ∨
-    (∃ res, naryScan isAnd (naryFlatten isAnd cs) = some res ∧ 2 ≤ res.length ∧
+    (∃ e, naryStep isAnd (naryFlatten isAnd cs) = some [e] ∧ naryCore isAnd cs = e) ∨
+    (∃ res, naryStep isAnd (naryFlatten isAnd cs) = some res ∧ 2 ≤ res.length ∧
         naryCore isAnd cs = mkNary isAnd res) := by
   unfold naryCore
   split
@@ -172,8 +271,8 @@ def NF : Exp α → Prop
   | .xor a b => NF a ∧ NF b ∧ (isNum a && isNum b) = false
   | .implies a b => NF a ∧ NF b ∧ (isNum a && isNum b) = false
   | .iff a b => NF a ∧ NF b ∧ (isNum a && isNum b) = false
-  | .and es => NFList es ∧ (∀ e ∈ es, isNum e = false ∧ isSameKind true e = false) ∧ 2 ≤ es.length
-  | .or es => NFList es ∧ (∀ e ∈ es, isNum e = false ∧ isSameKind false e = false) ∧ 2 ≤ es.length
+  | .and es => NFList es ∧ (∀ e ∈ es, isSameKind true e = false) ∧ naryStep true es = some es ∧ 2 ≤ es.length
+  | .or es => NFList es ∧ (∀ e ∈ es, isSameKind false e = false) ∧ naryStep false es = some es ∧ 2 ≤ es.length
   | .min es => es = [] ∨ (NFList es ∧ allNums es = none)
   | .max es => es = [] ∨ (NFList es ∧ allNums es = none)
   | .bin op l r => NF l ∧ NF r ∧ binCore op l r = .bin op l r
@@ -189,7 +288,8 @@ theorem NFList_iff (es : List (Exp α)) : NFList es ↔ ∀ e ∈ es, NF e := by
 
 theorem NF_mkNary (isAnd : Bool) (es : List (Exp α)) :
     NF (mkNary isAnd es) ↔
-      (∀ e ∈ es, NF e) ∧ (∀ e ∈ es, isNum e = false ∧ isSameKind isAnd e = false) ∧ 2 ≤ es.length := by
+      (∀ e ∈ es, NF e) ∧ (∀ e ∈ es, isSameKind isAnd e = false) ∧
+        naryStep isAnd es = some es ∧ 2 ≤ es.length := by
   cases isAnd <;> simp [mkNary, NF, NFList_iff]
 
 theorem allNums_none_of_mem {es : List (Exp α)} {e : Exp α} (he : e ∈ es) (hn : isNum e = false) :
@@ -206,10 +306,11 @@ theorem allNums_none_of_mem {es : List (Exp α)} {e : Exp α} (he : e ∈ es) (h
 /-! ### a normal form is a fixed point -/
 
 theorem naryCore_fix (isAnd : Bool) (es : List (Exp α))
-    (h : ∀ e ∈ es, isNum e = false ∧ isSameKind isAnd e = false) (hl : 2 ≤ es.length) :
+    (h : ∀ e ∈ es, isSameKind isAnd e = false) (hs : naryStep isAnd es = some es)
+    (hl : 2 ≤ es.length) :
     naryCore isAnd es = mkNary isAnd es := by
   unfold naryCore
-  rw [naryFlatten_id (fun e he => (h e he).2), naryScan_id (fun e he => (h e he).1)]
+  rw [naryFlatten_id h, hs]
   match es, hl with
   | _ :: _ :: _, _ => rfl
 
@@ -262,11 +363,11 @@ theorem simplify_of_NF (e : Exp α) : NF e → simplify e = e := by
       · simp [maxCore, h2]
   | and es ih =>
     intro h; simp only [NF, NFList_iff] at h
-    rw [simplify_and, map_simplify_id (fun e he => ih e he (h.1 e he)), naryCore_fix true es h.2.1 h.2.2]
+    rw [simplify_and, map_simplify_id (fun e he => ih e he (h.1 e he)), naryCore_fix true es h.2.1 h.2.2.1 h.2.2.2]
     rfl
   | or es ih =>
     intro h; simp only [NF, NFList_iff] at h
-    rw [simplify_or, map_simplify_id (fun e he => ih e he (h.1 e he)), naryCore_fix false es h.2.1 h.2.2]
+    rw [simplify_or, map_simplify_id (fun e he => ih e he (h.1 e he)), naryCore_fix false es h.2.1 h.2.2.1 h.2.2.2]
     rfl
   | not e ih =>
     intro h; simp only [NF] at h
@@ -358,18 +459,19 @@ theorem NF_naryCore (isAnd : Bool) {cs : List (Exp α)} (h : ∀ c ∈ cs, NF c)
     rcases mem_naryFlatten.1 hx with ⟨h1, h2⟩ | ⟨inner, h1, h2⟩
     · exact ⟨h x h1, h2⟩
     · have := (NF_mkNary isAnd inner).1 (h _ h1)
-      exact ⟨this.1 x h2, (this.2.1 x h2).2⟩
-  have hres : ∀ res, naryScan isAnd (naryFlatten isAnd cs) = some res →
-      ∀ x ∈ res, NF x ∧ isNum x = false ∧ isSameKind isAnd x = false := by
+      exact ⟨this.1 x h2, this.2.1 x h2⟩
+  have hres : ∀ res, naryStep isAnd (naryFlatten isAnd cs) = some res →
+      ∀ x ∈ res, NF x ∧ isSameKind isAnd x = false := by
     intro res hs x hx
-    rw [naryScan_some hs, List.mem_filter] at hx
-    exact ⟨(hF x hx.1).1, by simpa using hx.2, (hF x hx.1).2⟩
+    obtain ⟨q, hq, _, _⟩ := naryStep_some hs
+    rw [hq, List.mem_filter] at hx
+    exact hF x hx.1
   rcases naryCore_cases isAnd cs with ⟨_, h2⟩ | ⟨_, h2⟩ | ⟨e, h1, h2⟩ | ⟨res, h1, hl, h2⟩
   · rw [h2]; simp [NF]
   · rw [h2]; simp [NF]
   · rw [h2]; exact (hres _ h1 e (by simp)).1
   · rw [h2, NF_mkNary]
-    exact ⟨fun x hx => (hres _ h1 x hx).1, fun x hx => (hres _ h1 x hx).2, hl⟩
+    exact ⟨fun x hx => (hres _ h1 x hx).1, fun x hx => (hres _ h1 x hx).2, naryStep_idem h1, hl⟩
 
 theorem NF_binCore (op : BinOp) {l r : Exp α} (hl : NF l) (hr : NF r) : NF (binCore op l r) := by
   cases op with
